@@ -293,8 +293,13 @@ func (fr *frame) execInstr(in ssa.Instruction, st *State) {
 		mt := under(x.Map.Type()).(*types.Map)
 		fr.safety(st, "nil-map-write", operandName(x.Map), Not(Eq(m, Nil)), x.Pos())
 		fr.hashable(st, fr.val(x.Key), mt.Key(), x.Pos())
-		fr.atCall("mapupdate:"+sourceName(x.Map), st, x.Pos(), nil, []T{fr.val(x.Key), fr.val(x.Value)}, x)
-		c.traceCall("mapupdate:"+sourceName(x.Map), st) // calls("mapupdate:<map>") counts the writes
+		mname := sourceName(x.Map)
+		if lk, ok := x.Map.(*ssa.Lookup); ok {
+			// a write into an inner map m[k1][k2] = v is named "m[*]"
+			mname = sourceName(lk.X) + "[*]"
+		}
+		fr.atCall("mapupdate:"+mname, st, x.Pos(), nil, []T{fr.val(x.Key), fr.val(x.Value)}, x)
+		c.traceCall("mapupdate:"+mname, st) // calls("mapupdate:<map>") counts the writes
 		c.mapStore(st, m, mt, fr.val(x.Key), fr.val(x.Value))
 	case *ssa.MakeMap:
 		mt := under(x.Type()).(*types.Map)
